@@ -449,6 +449,10 @@ def run(w, rep, tier):
     check_error_laws(w, rep)
     check_sign_independence(w, rep)
     check_law_sign_independence(w, rep)
+    # "zero exactly when measured and reference attitudes are the same rotation": the error quaternion X^-1 X_r of equal
+    # attitudes is a computed unit quaternion, the log must normalise it before acos (rule shared with C06)
+    from .c06 import check_acos_domain
+    check_acos_domain(w, rep, "C15.error", groups=("SO3Quat",))
     rep.floor("C15.clamp", 9)
     rep.floor("C15.rate", 4)
     rep.floor("C15.error", 5)
